@@ -423,5 +423,6 @@ def run(args):
         chk.require(chk.mechanism_entries[m] > 0, 'mechanism %s never entered' % m)
     chk.require(chk.monitor_hits['member'] > 0 and chk.monitor_hits['type'] > 0 and chk.monitor_hits['constant'] > 0, 'oracle judged nothing')
     chk.require(len(harness) <= max(2, n // 50), 'harness failures: %r' % harness[:2])
+    core.require_standin_validated(chk)
     chk.assumptions = ['get-type folding is covered by C12 (needs a dump); the CLI option path is not driven here']
     return chk.finish()
